@@ -40,7 +40,7 @@ var thoroughConfigs = []BuildConfig{
 	defaultConfig,
 	{Name: "linux/amd64+dragonboat_monkeytest", Tags: "dragonboat_monkeytest"},
 	{Name: "darwin/amd64", GOOS: "darwin"},
-	{Name: "linux/386", GOARCH: "386"},
+	{Name: "linux/arm64", GOARCH: "arm64"},
 }
 
 // Engine is the resolved program of one build configuration.
